@@ -52,6 +52,7 @@ def oracle(hist, records):
         static_spec = spec
         spec, optional = ext_spec(spec)      # generated tasks exist only if their generator ran
         late = set()
+        late_edges = set()
         if any(t.get("late_deps") for t in spec["tasks"]):
             # a pattern dependency on a file that exists before the build is a dependency on the task producing that file
             spec = copy.deepcopy(spec)
@@ -61,6 +62,7 @@ def oracle(hist, records):
                     if rec["pre"].get(n) is not None and prod_of.get(n) not in (None, t["id"]):
                         t.setdefault("mem_in", []).append(prod_of[n])
                         late.add(t["id"])
+                        late_edges.add((prod_of[n], t["id"]))
         if obs.get("raised") or obs.get("exit") not in (0, 1):
             bad.append(("exit", f"build raised / exit {obs.get('exit')} {obs.get('raised')}", None))
             continue
@@ -68,6 +70,19 @@ def oracle(hist, records):
         ex = set(engine.executed(obs))
         usk = engine.user_skipped_closure(spec)
         usk_nof1, el_nof1 = closures_without_f1(spec, cfg)
+        usk_unjudged = set()
+        if late_edges:
+            # a pattern is resolved only when its consumer is set up: through ONE late link the dependants of a skipped task are
+            # known in time (the skip is decided statically, the link exists once the consumer resolved it); behind a second
+            # unresolved pattern they are not (the farther consumer may be set up first) — such tasks are not judged
+            st_edges = engine.spec_task_edges(spec) - late_edges
+            s0 = set(engine.user_skipped_closure(static_spec))
+            s1 = set(s0)
+            for (u, v) in late_edges:
+                if u in s0:
+                    s1 |= {v} | engine.closure(st_edges, v, forward=True)
+            usk_unjudged = usk - s1
+            usk = s1
         for t in usk:
             f = "F1" if t not in usk_nof1 else None      # in the closure only through a product-less after-edge
             if t in ex:
@@ -99,7 +114,7 @@ def oracle(hist, records):
             if out.get(t) != "SKIP":
                 bad.append(("select", f"task {t} is not eligible under k={cfg.get('k')!r} m={cfg.get('m')!r} but is reported {out.get(t)}", None))
         # "exactly": SKIP is only ever reported for tasks that are deselected or in the closure of a user-skipped task
-        for t in el - usk - unjudged:
+        for t in el - usk - unjudged - usk_unjudged:
             if out.get(t) == "SKIP":
                 f = "F1" if t not in el_nof1 else None   # needed by a selected task only through a product-less after-edge
                 bad.append(("only" + ("-F1" if f else ""), f"task {t} is eligible under k={cfg.get('k')!r} m={cfg.get('m')!r} and neither it nor anything it depends on carries a "
